@@ -118,8 +118,9 @@ class CFG:
 
         if not nullable:
             for terminal in self._terminals:
-                g_symbols.add(terminal)
-                to_process.append(terminal)
+                if terminal not in g_symbols:
+                    g_symbols.add(terminal)
+                    to_process.append(terminal)
 
         processed_with_modification = []
         while to_process:
